@@ -14,7 +14,8 @@ from ..interp import Interp, Budget, Unmodelled, Hooks
 from ..state import IntV, PtrV, State
 from ..terms import Lin, ZERO
 from . import conv
-from .common import short, fn_loc
+from .common import short, fn_loc, robust
+from .conv import HUGE
 
 LEVEL = 'proof'
 EXPLANATION = ('step summaries of every measure/convert loop by abstract interpretation of one arbitrary iteration, run in lockstep '
@@ -358,18 +359,135 @@ def same_value(m, f, a, b, depth=0):
     return False
 
 
+# the most units of the target encoding that one unit of the source encoding can become (Unicode: a BMP UTF-16 unit is up to 3 UTF-8
+# bytes, a scalar value up to 4 UTF-8 bytes or 2 UTF-16 units, a Latin-1 byte up to 2 UTF-8 bytes; everything else 1:1 or shrinking)
+EXPANSION = {('utf8', 'utf16'): 3, ('utf8', 'utf32'): 4, ('utf8', 'latin_1'): 2, ('utf16', 'utf32'): 2}
+
+
+def capacity(run, m, F, E, f, pairs_by_name, mnames, subject_disc):
+    """A wrapper that does not size its result with the measure pass: interpret it with the converter call as an event and compare
+    the room behind the destination pointer (when the destination is a buffer of a size that does not come from a measurement) with
+    the most the converter can write for the size it is given.  Returns (problems, undecided)."""
+    from ..state import State, Obj, MAXLEN
+
+    class WH(Hooks):
+        max_depth = 6
+        unroll = 1
+        widen_on_entry = False
+        max_paths = 3000
+
+        def call(self2, I, st, inst, name, args):
+            if name is None:
+                return None
+            if name in pairs_by_name:
+                st.ev('conv-call', inst, name, list(args))
+                ty = getattr(inst, 'ty', 'void')
+                return [(st, None if ty == 'void' else I.fresh_for_type(st, ty, 'ret'))]
+            if name in mnames:
+                st.ev('measure-call', inst, name)
+                v = I.fresh_int(st, 64, 'measured', hi=4 * HUGE)
+                return [(st, v)]
+            return None
+    I = Interp(m, F, E, WH())
+    st = State()
+    args = []
+    sret = f.sret_index() if hasattr(f, 'sret_index') else None
+    for k, p in enumerate(f.params):
+        ty = p['ty']
+        if k == sret:
+            o = Obj('ext', None)
+            o.lazy = True
+            st.objs['RET'] = o
+            args.append(PtrV('RET'))
+        elif ty.endswith('*'):
+            o = Obj('ext', None)
+            o.lazy = True
+            st.objs['ARG%d' % k] = o
+            args.append(PtrV('ARG%d' % k))
+        elif ty == 'i64':
+            args.append(I.fresh_int(st, 64, 'size', hi=HUGE - 1))
+        else:
+            args.append(I.fresh_int(st, int(ty[1:]) if ty[1:].isdigit() else 32, 'mode', hi=2))
+    problems, und = [], []
+    try:
+        outs = I.run(I.start(f, args, st))
+    except Exception as e:
+        return [], ['not interpreted: %s' % (str(e)[:80],)]
+    seen = set()
+    ncalls = 0
+    for o in outs:
+        s2 = o.st
+        measured = set()
+        for e in s2.events:
+            if e[0] == 'measure-call':
+                measured.add(e[2])
+            if e[0] != 'conv-call':
+                continue
+            ncalls += 1
+            p = pairs_by_name[e[2]]
+            if p.M is not None and p.M.name in measured:
+                continue                # this path ran the measure pass first: how its result sizes the destination is R03.2 / R03.3's subject
+            a = e[3]
+            dest = a[0]
+            if p.C.params[0]['ty'].endswith('**') and isinstance(dest, PtrV):
+                dest = I.load(s2, e[1], dest, 'i8*', 8)         # the cursor is handed over by reference
+            if not isinstance(dest, PtrV) or dest.obj is None or not isinstance(a[2], IntV):
+                und.append('destination or size of the %s call not tracked' % m.dem(e[2]).split('(')[0])
+                continue
+            ob = s2.objs.get(dest.obj)
+            if ob is None or ob.size is None:
+                und.append('room behind the destination of the %s call not known' % m.dem(e[2]).split('(')[0])
+                continue
+            eb = conv.elt_bytes(p.C.params[0]['ty']) or 1
+            room = ob.size - dest.off
+            if 'measured' in repr(room):
+                continue                # sized by the measure pass: R03.2's subject
+            need = I.as_u(s2, a[2]).scale(EXPANSION.get((p.tgt, p.src), 1) * eb)
+            if s2.is_ge0(room - need) is True:
+                continue
+            env = s2.find_model([room - need], lambda v: v[0] < 0) if robust([room - need]) else None
+            key = (e[1].id, repr(room))
+            if env is not None:
+                if key not in seen:
+                    seen.add(key)
+                    problems.append('%s is given a destination with room for %r byte(s) and %r source unit(s), each of which can become %d unit(s) '
+                                    'of %d byte(s) (line %d); witness %s' % (m.dem(e[2]).split('(')[0], room, I.as_u(s2, a[2]),
+                                                                              EXPANSION.get((p.tgt, p.src), 1), eb, e[1].line, own_fmt(env)))
+            else:
+                und.append('room %r for %r source unit(s) not decided' % (room, I.as_u(s2, a[2])))
+    if not ncalls and not und:
+        und.append('no path reaches the converter call')
+    return problems, und
+
+
+def own_fmt(env):
+    from . import own
+    return own.fmt_env(env)
+
+
 def wrappers(run, m, F, E, pairs):
     """R03.3 wiring and R03.5 throw sets."""
     cnames = dict((p.C.name, p) for p in pairs)
     mnames = dict((p.M.name, p) for p in pairs if p.M is not None)
+    odd = dict((p.C.name, p) for p in conv.ODD_PAIRS)
+    allc = dict(cnames)
+    allc.update(odd)
+    allm = dict(mnames)
+    allm.update(dict((p.M.name, p) for p in conv.ODD_PAIRS if p.M is not None))
     nw = 0
     for name in F.lib:
         f = m.func(name)
         calls = F.calls[name]
         cc = [(i, ts[0]) for (i, ts, k) in calls if ts and ts[0] in cnames]
-        if not cc or name in cnames:
+        oc = [(i, ts[0]) for (i, ts, k) in calls if ts and ts[0] in odd]
+        if (not cc and not oc) or name in allc:
             continue
         nw += 1
+        if oc or any(cnames[cn].M is not None and not [1 for (i, ts, k) in calls if ts and ts[0] == cnames[cn].M.name] for (ci, cn) in cc):
+            # some converter call here is not of the measure-allocate-convert form: the room behind its destination is checked instead
+            probs, und = capacity(run, m, F, E, f, allc, allm, None)
+            run.ob('R03.3', short(f.dem), False if probs else (None if und else True), probs[0] if probs else und[0] if und else
+                   'every destination that is not sized by the measure pass has room for the largest possible output', loc=fn_loc(f), disc='capacity')
         for (ci, cn) in cc:
             p = cnames[cn]
             subject = short(f.dem)
